@@ -213,6 +213,22 @@ def extract():
         raise
     except Exception as e:
         raise ExtractError('Mongo migration probe failed: %r' % (e,))
+    # class path written for each rule class, in the order of the constructors of the model's `Rule`
+    try:
+        import json as _json
+        from vakt.rules import operator as r_op, list as r_list, logic as r_logic, string as r_str, net as r_net, \
+            inquiry as r_inq
+        import proto as _proto
+        insts = [r_op.Eq(1), r_op.NotEq(1), r_op.Greater(1), r_op.Less(1), r_op.GreaterOrEqual(1), r_op.LessOrEqual(1),
+                 r_list.In(1), r_list.NotIn(1), r_list.AllIn(1), r_list.AllNotIn(1), r_list.AnyIn(1), r_list.AnyNotIn(1),
+                 r_logic.Truthy(), r_logic.Falsy(), r_logic.And(), r_logic.Or(), r_logic.Not(r_logic.Any()), r_logic.Any(),
+                 r_logic.Neither(), r_str.Equal('a'), r_str.StartsWith('a'), r_str.EndsWith('a'), r_str.Contains('a'),
+                 r_str.PairsEqual(), r_str.RegexMatch('a'), r_net.CIDR('10.0.0.0/8'), r_inq.SubjectMatch(),
+                 r_inq.ActionMatch(), r_inq.ResourceMatch(), r_inq.SubjectEqual(), r_inq.ActionEqual(), r_inq.ResourceIn(),
+                 _proto.RaisingRule(), _proto.ConstRule(True)]
+        g['ruleClasses'] = [_json.loads(r.to_json())[jsonpickle.tags.OBJECT] for r in insts]
+    except Exception as e:
+        raise ExtractError('rule class table probe failed: %r' % (e,))
     return g
 
 
@@ -243,6 +259,7 @@ def render(g):
     L.append('/-- every rule class path of this tree (and the legacy names): does migration 3 `down` refuse it (probed) -/')
     L.append('def m3DownRefuses : List (String × Bool) := [%s]' % ', '.join(
         '(%s, %s)' % (lean_str(c), lean_bool(c in g['m3Irreversible'])) for c in g['m3ProbeClasses']))
+    L.append('def ruleClasses : List String := [%s]' % ', '.join(lean_str(x) for x in g['ruleClasses']))
     L.append('def regexCacheDefault : Option Nat := %s' % (
         'none' if g['regexCacheDefault'] is None else 'some %d' % g['regexCacheDefault']))
     L.append('')
